@@ -198,9 +198,8 @@ def Str.spec (s : Str) : Op → Option Exc
   | .set _ _ => some .ClassError
   | .mem .null => some .ValueError
   | .mem _ => none
-  | .rem .null => some .ValueError
   | .rem (.str t) => if isInfix t s.s then none else some .ValueError
-  | .rem _ => none                                     -- silently ignored (finding)
+  | .rem v => strArgExc v                              -- not a String: ClassError (NULL: ValueError), fix e60e6ec
   | .resize _ => heapExc s.alloc
   | .len => none
   | .concat (.scalar v) => (heapExc s.alloc).or (strArgExc v)
